@@ -157,7 +157,7 @@ struct identity_value_zero {
 
 template <typename T>
 struct identity_value_min {
-  constexpr T operator()() const { return std::numeric_limits<T>::min(); }
+  constexpr T operator()() const { return std::numeric_limits<T>::lowest(); }
 };
 
 template <typename T>
